@@ -309,27 +309,22 @@ func newRNode() *rnode {
 func (rn *rnode) rinsert(topic []byte, msg *message.PublishMessage) error {
 	// If there's no more topic levels, that means we are at the matching rnode.
 	if len(topic) == 0 {
-		l := msg.Len()
+		// Always store a new message in a new buffer: Retained() hands out
+		// pointers to the stored messages, and their holders keep reading them
+		// after the lock is released.
+		buf := make([]byte, msg.Len())
 
-		// Let's reuse the buffer if there's enough space
-		if l > cap(rn.buf) {
-			rn.buf = make([]byte, l)
-		} else {
-			rn.buf = rn.buf[0:l]
-		}
-
-		if _, err := msg.Encode(rn.buf); err != nil {
+		if _, err := msg.Encode(buf); err != nil {
 			return err
 		}
 
-		// Reuse the message if possible
-		if rn.msg == nil {
-			rn.msg = message.NewPublishMessage()
-		}
+		m := message.NewPublishMessage()
 
-		if _, err := rn.msg.Decode(rn.buf); err != nil {
+		if _, err := m.Decode(buf); err != nil {
 			return err
 		}
+
+		rn.buf, rn.msg = buf, m
 
 		return nil
 	}
